@@ -36,10 +36,17 @@ def _test_events(test):
     raise Unsupported("event test: " + ast.dump(test))
 
 
+def _is_log(s):
+    """a logging statement (no effect on the model)"""
+    return isinstance(s, ast.Expr) and isinstance(s.value, ast.Call) and ast.unparse(s.value.func).startswith("_LOGGER.")
+
+
 def _actions(body):
     """statement list -> list of action terms (Coq syntax)"""
     acts = []
     for s in body:
+        if _is_log(s):
+            continue
         if isinstance(s, ast.Assign) and len(s.targets) == 1 and _is_self_attr(s.targets[0], "_spa_state"):
             acts.append("ASet %s" % _state(s.value))
         elif isinstance(s, ast.Assign) and len(s.targets) == 1 and isinstance(s.targets[0], ast.Attribute) and s.targets[0].attr in (
@@ -68,7 +75,7 @@ def _actions(body):
 
 def _guarded(body):
     """a branch is a flat action list, optionally under ONE guard on the state or on the facade"""
-    stmts = [x for x in body if not isinstance(x, ast.Assert)]
+    stmts = [x for x in body if not isinstance(x, ast.Assert) and not _is_log(x)]
     if len(stmts) == 1 and isinstance(stmts[0], ast.If) and not stmts[0].orelse:
         t = stmts[0].test
         if isinstance(t, ast.Compare) and len(t.ops) == 1 and _is_self_attr(t.left, "_spa_state"):
